@@ -447,6 +447,52 @@ fn sc_flags(seed: u64, thorough: bool) -> Vec<Scenario> {
             });
         }
     }
+    // connections whose cookie, under the production key [0,0], is one of the edge values of the
+    // u32 range (found offline with `mcsim hunt-cookie`; the oracles learn the cookie from the
+    // SYN-ACK, the prediction only aims): cookie + 1 wraps to 0, and ack = 0 must not be taken
+    // for "cookie + 1" when the cookie is 0
+    {
+        let key0 = [0u64, 0u64];
+        let tuples: [(IpAddr, IpAddr, u16); 3] = [
+            (
+                IpAddr::V6("2001:db8:ffff::41b6:5056".parse().unwrap()),
+                IpAddr::V6(node6()),
+                40003,
+            ), // cookie 0xffffffff
+            (IpAddr::V4(Ipv4Addr::new(207, 188, 38, 30)), IpAddr::V4(node4()), 40001), // cookie 0
+            (
+                IpAddr::V6("2001:db8:ffff::cbaf:47a4".parse().unwrap()),
+                IpAddr::V6(node6()),
+                40003,
+            ), // cookie 0
+        ];
+        let mut steps = Vec::new();
+        for (src, dst, sport) in tuples.iter() {
+            let fl = Flow {
+                src: *src,
+                dst: *dst,
+                sport: *sport,
+                dport: 80,
+            };
+            let ck = fl.cookie(&key0);
+            steps.push(Step::Frame(fl.seg(5, 0, F_SYN, &[])));
+            // wrong acknowledgement numbers first: cookie, cookie + 2, and 0 / 0xffffffff
+            for wrong in [ck, ck.wrapping_add(2), if ck == 0 { 0 } else { 0xffff_ffff }] {
+                if wrong != ck.wrapping_add(1) {
+                    steps.push(Step::Frame(fl.seg(6, wrong, F_PSH | F_ACK, b"GET / HTTP/1.1\r\n\r\n")));
+                }
+            }
+            steps.push(Step::Frame(fl.seg(6, ck.wrapping_add(1), F_PSH | F_ACK, b"GET / HTTP/1.1\r\n\r\n")));
+            steps.push(Step::Frame(fl.seg(24, ck.wrapping_add(1), F_FIN | F_ACK, &[])));
+        }
+        out.push(Scenario {
+            name: "edge-cookies".into(),
+            cfg: cfg(Build::Debug, LoggerKind::None, 0, key0),
+            start_ms: START,
+            steps,
+            samples: 4,
+        });
+    }
     out
 }
 
